@@ -126,7 +126,9 @@ Attacked(kind, d, i) == /\ natt' = natt + 1
                         /\ Log(Rec("attack", d, 0, i, kind, 0, 0))
 Without(s, i) == SubSeq(s, 1, i - 1) \o SubSeq(s, i + 1, Len(s))
 InsertAt(s, i, x) == SubSeq(s, 1, i - 1) \o <<x>> \o SubSeq(s, i, Len(s))
-\* part: the length prefix, the ciphertext or the authentication tag of frame i is altered
+\* part: the length prefix, the ciphertext or the authentication tag of frame i is altered, or the frame is
+\* cut short ("cut": somewhere after its prefix, "cuthdr": inside the 4-byte prefix) -- the reader then runs
+\* into the next frame or into the end of what is in transit; in every case nothing of it is returned
 Tamper(d, i, part) ==
   /\ CanAttack /\ "tamper" \in AttackKinds /\ i \in 1..Len(wire[d])
   /\ wire' = [wire EXCEPT ![d][i].bad = TRUE]
@@ -174,7 +176,7 @@ MaxFr == 1 + MaxOps * 3
 Next == \/ \E d \in Dirs, n \in WriteSizes : Can /\ Write(d, n)
         \/ \E d \in Dirs, m \in ReadSizes : Can /\ ReadLeft(d, m)
         \/ \E d \in Dirs, m \in ReadSizes : Can /\ ReadFrame(d, m)
-        \/ \E d \in Dirs, i \in 1..MaxFr, part \in {"len", "body", "tag"} : Can /\ Tamper(d, i, part)
+        \/ \E d \in Dirs, i \in 1..MaxFr, part \in {"len", "body", "tag", "cut", "cuthdr"} : Can /\ Tamper(d, i, part)
         \/ \E d \in Dirs, i \in 1..MaxFr : Can /\ Drop(d, i)
         \/ \E d \in Dirs, i \in 1..MaxFr : Can /\ Dup(d, i)
         \/ \E d \in Dirs, i \in 1..MaxFr : Can /\ Swap(d, i)
